@@ -1,8 +1,9 @@
 use crate::par::PropDef;
+pub mod c01;
 pub mod c02;
 
 pub fn all() -> Vec<PropDef> {
-    vec![c02::def()]
+    vec![c01::def(), c02::def()]
 }
 
 /// Shared helper: a panic/error message from Sim into a stable signature.
